@@ -650,7 +650,7 @@ func confirmFatal(src string) parseReport {
 	return last
 }
 
-// fatalConfirmed counts confirmed hangs / process deaths of this run; after 6 the parser stream is
+// fatalConfirmed counts confirmed hangs / process deaths of this run; after 3 the parser stream is
 // cut short (every further one costs seconds; the run fails with replays anyway).
 var fatalConfirmed int
 
@@ -679,13 +679,19 @@ func parsePool(srcs []string, nw int) []parseReport {
 				mu.Lock()
 				lo := next
 				next += batch
-				storm := fatalConfirmed >= 6
+				storm := fatalConfirmed >= 3
 				mu.Unlock()
 				if lo >= len(srcs) || storm {
 					return
 				}
 				hi := min(lo+batch, len(srcs))
 				for lo < hi {
+					mu.Lock()
+					storm = fatalConfirmed >= 3
+					mu.Unlock()
+					if storm {
+						return
+					}
 					if w == nil {
 						var err error
 						if w, err = startParseWorker(); err != nil {
@@ -1228,7 +1234,7 @@ func runC03(cfg Config, r *Result) {
 		add(mutCase{genDeepNest(rng, cfg.N(300, 600)), "deep-nest"})
 	}
 	flush()
-	if fatalConfirmed >= 6 {
+	if fatalConfirmed >= 3 {
 		r.Note("parser oracle cut short after %d confirmed hangs / process deaths (remaining inputs counted as parse:skipped)", fatalConfirmed)
 	}
 	r.Note("parser oracle: %d inputs in %.1fs on %d workers; lexer oracle + model correspondence: %.1fs", total, tParse.Seconds(), nw, tLex.Seconds())
